@@ -65,7 +65,8 @@ DefaultOf(m) == CASE m \in {"notify", "typecheck"} -> 1
 \* kwargs scopes: keys are ints; for viewopt 21/22 are the leaves a/b of one nested dict option
 KwKeys(m) == IF m = "viewopt" THEN {1, 21, 22} ELSE {1, 2}
 CtxKeys   == {1, 2}
-Classes   == 1..5          \* 1..3 plain classes A B C; 4 = wrapped class, 5 = its wrapper
+Classes   == 1..6          \* 1..3 plain classes A B C; 4 = wrapped class, 5 = its wrapper;
+                           \* 6 = a FUNCTION used as detour destination (it builds the source class itself)
 Types     == {1, 2}        \* two unregistered types for on-demand deserialisation
 Names     == {1, 2}        \* timeit names
 PermCodes == {0, 1, 2, 9, 255}  \* CodePermission bit sets: none, ASSIGN, CONDITION, BASIC (ASSIGN|CALL), ALL
@@ -79,7 +80,7 @@ Args(m) ==
     [] m = "perm"     -> {<<p>> : p \in PermCodes}
     [] m = "ctx"      -> {<<k, v, c>> : k \in CtxKeys, v \in {1, 2}, c \in {0, 1}}
                            \cup {<<1, 1, 1, 2, 1, 1>>, <<1, 2, 0, 2, 2, 0>>}
-    [] m = "detour"   -> {<<1, 2>>, <<2, 3>>, <<1, 3>>, <<2, 1>>, <<3, 1>>, <<1, 2, 2, 1>>}
+    [] m = "detour"   -> {<<1, 2>>, <<2, 3>>, <<1, 3>>, <<2, 1>>, <<3, 1>>, <<1, 2, 2, 1>>, <<1, 6>>, <<2, 6>>}
     [] m = "wrap"     -> {<<4, 5>>}
     \* <<fn, per_thread, exit_fn>>: exit_fn 0 = none, 1 = a callback that returns, 2 = a callback that RAISES
     [] m = "dyn"      -> {<<1, 1, 0>>, <<2, 1, 0>>, <<0, 1, 0>>, <<1, 0, 0>>, <<2, 0, 0>>,
@@ -262,7 +263,7 @@ Frame(m, a, si, sm, sc, t) ==
 \* the small detour family is explored deeper (the status tree of timeit is history and grows fast)
 \* and the permission/contextual family, whose propagated scopes multiply the product of two
 \* threads, one level less when there are several threads
-Bonus == CASE fam = FamDetour -> 2
+Bonus == CASE fam = FamDetour -> 1
            [] fam = FamPermCtx /\ Cardinality(Threads) > 1 -> -1
            [] fam = FamGlobal /\ Cardinality(Threads) > 1 /\ MaxDepth > 2 -> 2 - MaxDepth   \* frames carry history (v0, g0)
            [] fam = FamTimeit /\ MaxDepth > 3 -> 3 - MaxDepth      \* the status tree is history: depth 3 at most
@@ -409,10 +410,40 @@ EnterTimeit(t, a) ==
   /\ tcur'  = [tcur EXCEPT ![t] = p]
   /\ tstat' = [tstat EXCEPT ![t] = IF tcur[t] = <<>> THEN {<<p, 1, 0>>} ELSE Bump(@, p, 1, 0)]
   /\ UNCHANGED <<gprog, val, kws, permv, ctxm, dst, tfn, gfn, gld>>
+\* f.si = 1: the timer was ended through its handle (TimeIt.end(), public and idempotent) while the
+\* scope was still open: the exit has nothing left to record, but still hands the context back
 ExitTimeit(t, f, exc) ==
   /\ tcur'  = [tcur EXCEPT ![t] = f.sc]
-  /\ tstat' = [tstat EXCEPT ![t] = Bump(@, tcur[t], -1, exc)]
+  /\ tstat' = [tstat EXCEPT ![t] = IF f.si = 1 THEN @ ELSE Bump(@, tcur[t], -1, exc)]
   /\ UNCHANGED <<gprog, val, kws, permv, ctxm, dst, tfn, gfn, gld>>
+
+\* the innermost open timer is ended by hand inside its block: it stops counting as running, the
+\* current timing context does NOT change (the block is still open)
+InnermostTimer(t) == SetMax({i \in 1..Len(prog[t]) : prog[t][i].m = "timeit"})
+EndEarly(t) ==
+  /\ \E i \in 1..Len(prog[t]) : prog[t][i].m = "timeit"
+  /\ LET i == InnermostTimer(t) IN
+     /\ prog[t][i].si = 0
+     /\ prog'  = [prog EXCEPT ![t][i].si = 1]
+     /\ tstat' = [tstat EXCEPT ![t] = Bump(@, tcur[t], -1, 0)]
+  /\ act' = <<"EndEarly", t>>
+  /\ out' = "ok" /\ cbk' = 0
+  /\ UNCHANGED <<gprog, val, kws, permv, ctxm, dst, tfn, gfn, gld, tcur>>
+  /\ Derive
+
+\* An exception raised by a USE of a scope and handled INSIDE the block must not change what the scope
+\* means afterwards: instantiating a class detoured to a function that raises; a hyper primitive whose
+\* evaluate function raises; a rendering that carries options and raises part-way.
+InnerFault(t, m) ==
+  /\ m \in fam
+  /\ CASE m = "detour"  -> \E c \in 1..3 : view[t].detour[c] = 6
+       [] m = "dyn"     -> view[t].dyn # 0
+       [] m = "viewopt" -> TRUE
+       [] OTHER         -> FALSE
+  /\ act' = <<"InnerFault", t, m>>
+  /\ out' = "ok" /\ cbk' = 0
+  /\ UNCHANGED <<prog, gprog, val, kws, permv, ctxm, dst, tfn, gfn, gld, tcur, tstat>>
+  /\ Derive
 
 \* catch_errors: no ambient state at all
 EnterCatch(t, a) ==
@@ -502,6 +533,8 @@ Next ==
     \/ \E m \in fam : \E a \in Args(m) : Enter(t, m, a)
     \/ \E u \in Threads : PropagateEnter(t, u)
     \/ \E m \in {"dyn", "detour"} : EnterRaises(t, m)
+    \/ EndEarly(t)
+    \/ \E m \in {"detour", "dyn", "viewopt"} : InnerFault(t, m)
 
 Spec == Init /\ [][Next]_vars
 
@@ -515,11 +548,13 @@ ViewIsProjection == \A t \in Threads : view[t] = View(t) /\ beh[t] = Behaviour(E
 
 \* timing bookkeeping: the running timers are exactly the prefixes of the current chain,
 \* every recorded path has its parent recorded
+LivePaths(t) == LET p == Of(t, {"timeit"}) IN
+                {[j \in 1..i |-> p[j].a[1]] : i \in {k \in 1..Len(p) : p[k].si = 0}}
 TimeitOK == \A t \in Threads :
   /\ tcur[t] = EffChain(t)
   /\ \A e \in tstat[t] :
        /\ e[2] \in {0, 1}
-       /\ (e[2] = 1) <=> (Len(e[1]) <= Len(tcur[t]) /\ e[1] = SubSeq(tcur[t], 1, Len(e[1])))
+       /\ (e[2] = 1) <=> (e[1] \in LivePaths(t))
        /\ Len(e[1]) > 1 => \E p \in tstat[t] : p[1] = Front(e[1])
 
 \* leaving a scope (normally or by exception) restores exactly the view observed when it was
@@ -539,6 +574,9 @@ Isolation == [][\A u \in Threads : u # Stepper =>
                   /\ \A c \in Comps \ GlobalComps : view'[u][c] = view[u][c]
                   /\ gprog' = gprog => view'[u] = view[u]
                   /\ prog'[u] = prog[u]]_vars
+
+\* a fault handled inside a block changes nothing for anybody
+InnerFaultIsNoop == [][act'[1] = "InnerFault" => (view' = view /\ prog' = prog /\ gprog' = gprog)]_vars
 
 \* a refused enter changes nothing for anybody
 RefusedIsNoop == [][out' = "refused" => (view' = view /\ prog' = prog /\ gprog' = gprog)]_vars
